@@ -1,9 +1,6 @@
 #!/bin/bash
-# eval_batch.sh <jobs> <change-id-regex>   run the targeted evaluations of seeded/targets.tsv whose change id matches
-cd /verif
-grep -v '^#' seeded/targets.tsv | while IFS=$'\t' read -r id chk only; do
-  if [[ "$id" =~ $2 ]]; then
-    echo "=== $id $chk $only $(date +%T)"
-    python3 bin/eval_seeded.py --checks "$chk" --only "$only" --jobs "$1" "$id" 2>&1 | tail -1 | cut -c1-300
-  fi
+# eval_batch.sh <jobs> <change-id-regex> [extra eval_seeded.py flags]   evaluate the seeded changes whose id matches
+cd /verif; j=$1; re=$2; shift; shift
+for id in $(grep -v '^#' seeded/targets.tsv | cut -f1 | sort -u); do
+  if [[ "$id" =~ $re ]]; then python3 bin/eval_seeded.py --jobs "$j" "$@" "$id" 2>&1 | grep -v "^WARNING"; fi
 done
